@@ -444,9 +444,14 @@ class EffectVisitor:
                 self.sites.append(('inplace', 'out=', 'unknown', node.lineno))
             if n in GLOBAL_STATE_CALLS:
                 self.sites.append(('global_read', n, 'global', node.lineno))
+            dkw = [k.value for k in node.keywords if k.arg == 'dtype']
+            def literal_dtype(v):       # torch.float64 / torch.float / np.float32 ...: a dtype fixed in the source, not taken from an input
+                return isinstance(v, ast.Attribute) and isinstance(v.value, ast.Name) and v.value.id in ('torch', 'np', 'numpy') and v.attr != 'dtype'
             if n in CREATE_CALLS and isinstance(node.func, ast.Attribute) and isinstance(node.func.value, ast.Name) and node.func.value.id == 'torch':
-                has_dtype = any(k.arg == 'dtype' for k in node.keywords)
-                self.sites.append(('create', n, 'dtype' if has_dtype else 'default_dtype', node.lineno))
+                has_dtype = bool(dkw)
+                self.sites.append(('create', n, ('fixed_dtype' if literal_dtype(dkw[0]) else 'dtype') if has_dtype else 'default_dtype', node.lineno))
+            elif dkw and literal_dtype(dkw[0]):
+                self.sites.append(('cast', 'dtype-kw:%s' % n, 'fixed', node.lineno))
             if n in ('float', 'double', 'half') and isinstance(node.func, ast.Attribute) and not node.args:
                 self.sites.append(('cast', n, 'fixed', node.lineno))
 
